@@ -23,6 +23,14 @@ def curves(rng):
         im = rescorr.run_impl(case)
         rf = im["rf"]
         out[name] = interp1d(t, rf, bounds_error=False, fill_value=(0, rf[-1]))
+        if name == "ideal":
+            # the caller's own curve objects of other kinds over a coarse table of the same recovery: the forecaster must CALL the curve
+            # it was given (its kind and its out-of-range behaviour are part of the curve)
+            tc = np.concatenate([[0.0], np.geomspace(1e-4, 40.0, 24)])
+            rc = np.interp(tc, t, rf)
+            out["ideal, cubic interp1d"] = interp1d(tc, rc, kind="cubic", bounds_error=False, fill_value=(0, rc[-1]))
+            out["ideal, previous-value interp1d"] = interp1d(tc, rc, kind="previous", bounds_error=False, fill_value=(0, rc[-1]))
+            out["ideal, linear interp1d extrapolating"] = interp1d(tc[:-6], rc[:-6], fill_value="extrapolate")
     return out
 
 
@@ -86,7 +94,9 @@ def run(ctx):
         close = dom.relclose(fit.M_, M, 2e-3) and dom.relclose(fit.tau_, tau, 2e-3)
         if not close and misfit <= 1e-3:
             close = dom.relclose(fit.M_, M, 1e-2) and dom.relclose(fit.tau_, tau, 1e-2)
-        if not close:
+        # (the recovery clause is about curves that determine M and tau: a piecewise-constant or coarse cubic / extrapolated user curve
+        # does not - for those only containment in the bounds, above, and the supplied-tau optimum, below, are required)
+        if not close and "interp1d" not in cname:
             bad("fitting noise-free production generated from the same curve does not recover M and tau", dict(**inp, window_end_over_tau=end / tau, samples=len(tt), bounds=kind),
                 dict(M=float(fit.M_), tau=float(fit.tau_)))
         # ---------------- explicit arguments always win over fitted attributes, at the ends of the admissible range too
